@@ -608,6 +608,13 @@ func TestWorker(t *testing.T) {
 	if *fOut == "" {
 		t.Skip("not invoked by the driver")
 	}
+	if p := os.Getenv("VERIF_GOMAXPROCS"); p != "" {
+		n := 0
+		fmt.Sscan(p, &n)
+		if n > 0 {
+			runtime.GOMAXPROCS(n)
+		}
+	}
 	os.Setenv("GODEBUG", "panicnil=1") // see task kind 4
 	if f, err := os.OpenFile(os.DevNull, os.O_WRONLY, 0); err == nil {
 		os.Stdout = f // goz prints recovered panics when no handler is set
